@@ -15,7 +15,7 @@
    the DelayedCall armed with that delay at issue fires"; that the reactor fires it on time is Twisted's business. *)
 From AV Require Import Base.Util Model.Framing Proofs.BrokerClientInv.
 From AV Require Model.BrokerClient.
-From AV Require Import Model.ClientReq Proofs.ClientReqC11 Proofs.ClientReqC11b Proofs.ClientReqC11c.
+From AV Require Import Model.ClientReq Proofs.ClientReqC11 Proofs.ClientReqC11b Proofs.ClientReqC11c Proofs.ClientReqC11d.
 
 (* Issue: a request that is accepted (the call raises nothing) arms exactly one DelayedCall, with delay
    max(timeout, min_timeout) (timeout alone when no minimum is given); from ANY state, for any node, any flags. *)
@@ -131,6 +131,39 @@ Theorem C11_late_reply_inert : forall g evs i b rid payload cid,
 Proof. exact c11_late_reply_inert. Qed.
 Print Assumptions C11_late_reply_inert.
 
+(* ONE CORRELATION ID ISSUED AGAIN (EResend d: _make_request_to_broker with the id of direct request d on the same broker
+   client - KafkaClient.fetch_api_versions re-issues one encoded request up to three times; the 2**31 wrap of _next_id).
+   "A reply that arrives after the timeout is discarded without disturbing any other request" needs the late reply to
+   meet nothing but the tombstone of the request it answers:
+   (1) while the id is in the broker client's table - the request is unanswered, or it timed out after it was written
+       and has been neither answered nor disconnected since - the re-issue raises DuplicateRequestError and changes
+       NOTHING (from any state): no second request can sit under that id when the late reply comes;
+   (2) the timeout of a written request leaves exactly that situation: right after the step in which its DelayedCall
+       fires (C11_bound), re-issuing its id is refused;
+   (3) a re-issue that is accepted is a request like any other: exactly one DelayedCall of max(timeout, min_timeout). *)
+Theorem C11_same_id_refused : forall C cl d i h0 b r expect mint,
+  c_clients C = Some cl -> nth_error (c_direct C) d = Some (i, h0) -> nth_error (c_bcs C) i = Some b ->
+  BrokerClient.lookup (nth h0 (BrokerClient.t_dlog (BrokerClient.s_t (b_st b))) 0) (BrokerClient.t_reqs (BrokerClient.s_t (b_st b))) = Some r ->
+  step C (EResend d expect mint) = (C, [ORaised 1]).
+Proof. exact same_id_refused. Qed.
+Print Assumptions C11_same_id_refused.
+
+Theorem C11_timed_out_id_reserved : forall g evs cl i b h d t to r expect mint,
+  c_clients (fst (run (init g) evs)) = Some cl -> nth_error (c_direct (fst (run (init g) evs))) d = Some (i, h) ->
+  nth_error (c_bcs (fst (run (init g) evs))) i = Some b -> nth_error (b_reqs b) h = Some (mkCreq (Direct d) (Some t) to) ->
+  In r (BrokerClient.t_reqs (BrokerClient.s_t (b_st b))) -> BrokerClient.r_h r = h -> BrokerClient.r_sent r = true ->
+  step (fst (step (fst (run (init g) evs)) (ETimer t))) (EResend d expect mint)
+  = (fst (step (fst (run (init g) evs)) (ETimer t)), [ORaised 1]).
+Proof. exact c11_timed_out_id_reserved. Qed.
+Print Assumptions C11_timed_out_id_reserved.
+
+Theorem C11_timer_at_reissue : forall C d expect mint C' o, step C (EResend d expect mint) = (C', o) ->
+  (forall k, ~ In (ORaised k) o) -> o <> [] ->
+  filter is_k2 o = [OSched (length (c_timers C') - 1) 2 (if mint <? 0 then g_timeout (c_cfg C) else Z.max (g_timeout (c_cfg C)) mint)]
+  /\ length (c_direct C') = S (length (c_direct C)).
+Proof. exact timer_at_reissue. Qed.
+Print Assumptions C11_timer_at_reissue.
+
 (* Composition with M7: every broker client inside a reachable client state satisfies M7's invariant CInv (the
    hypothesis of the step-level theorems of C06 / C10: C10_resend_at_loss - after the drop requested by
    disconnect_on_timeout exactly the entries that are not cancelled are written on the next connection, in order, once -
@@ -175,6 +208,27 @@ Example bound_nonvacuous :
     /\ nth_error (b_reqs b) 1 = Some (mkCreq (Direct 1) (Some 1%nat) false)
     /\ BrokerClient.s_proto (b_st b) = true.
 Proof. vm_compute. eexists. repeat split. Qed.
+
+(* the same id again (no disconnect_on_timeout): refused while the first request is unanswered and after it timed out;
+   the late reply does nothing but clear the tombstone; only then the id is accepted again, and the new request gets
+   its own timer and its own reply *)
+Definition ex_cfg_keep := mkCfg 5000 false 0 0 [1].
+Example same_id_again :
+  snd (run (init ex_cfg_keep) [EUpdate [(1, 5)] false; ESend 1 true (-1); EConnOk 0; EResend 0 true (-1); ETimer 0;
+                               EResend 0 true (-1); EReply 0 1 [7]; EResend 0 true 30000; EReply 0 1 [9]])
+  = [OConnect 0 5; OSched 0 2 5000; OWrite 0 1; ORaised 1; OReq 0 RTimedOut; ORaised 1;
+     OWrite 0 1; OSched 1 2 30000; OCancelTimer 1; OReq 1 (RSucc [0; 0; 0; 1; 9])].
+Proof. vm_compute. reflexivity. Qed.
+
+(* the hypotheses of C11_timed_out_id_reserved are met by a reachable state *)
+Example id_reserved_nonvacuous :
+  let C := fst (run (init ex_cfg_keep) [EUpdate [(1, 5)] false; ESend 1 true (-1); EConnOk 0]) in
+  exists cl b r, c_clients C = Some cl /\ nth_error (c_direct C) 0 = Some (0%nat, 0%nat) /\ nth_error (c_bcs C) 0 = Some b
+    /\ nth_error (b_reqs b) 0 = Some (mkCreq (Direct 0) (Some 0%nat) false)
+    /\ In r (BrokerClient.t_reqs (BrokerClient.s_t (b_st b))) /\ BrokerClient.r_h r = 0%nat /\ BrokerClient.r_sent r = true.
+Proof.
+  vm_compute. do 3 eexists. do 4 (split; [reflexivity|]). split; [left; reflexivity|]. split; reflexivity.
+Qed.
 
 Example late_reply_nonvacuous :
   let C := fst (run (init ex_cfg) [EUpdate [(1, 5)] false; ESend 1 true (-1); ESend 1 true 30000; EConnOk 0; ETimer 0]) in
